@@ -139,41 +139,41 @@ def _build_resume(gid, p):
         crashed = smcdrv.run_smc(c2, ids=ids, role="crashed")
         runs = [ref, crashed]
         if crashed["status"] == "fault" and crashed["tracer"].payloads:
+            def source(run):
+                """the last checkpoint `run` wrote, in the form the route passes it"""
+                blob_ = run["tracer"].payloads[-1]
+                if route == "bytes":
+                    return blob_
+                if route == "dict":
+                    return pickle.loads(blob_)          # a fresh dictionary
+                if route == "live_dict":
+                    # the very object the callback was handed (sampler.last_checkpoint_state)
+                    return [e["_state"] for e in run["tracer"].ev if e["t"] == "ckpt"][-1]
+                return path
             blob = crashed["tracer"].payloads[-1]
-            if route == "bytes":
-                src = blob
-            elif route == "dict":
-                src = pickle.loads(blob)
-            elif route == "live_dict":
-                # the very dictionary object the callback was handed (what
-                # sampler.last_checkpoint_state or a user callback keeps), not a serialised copy
-                lives = [e["_state"] for e in crashed["tracer"].ev if e["t"] == "ckpt"]
-                src = lives[-1]
-            elif route == "path":
-                src = path
-            else:
-                raise ValueError(route)
             c3 = dict(cfg)
             if path:
                 c3["path"] = path
-            state = pickle.loads(blob)
-            res = smcdrv.run_smc(c3, ids=ids, role="resumed", resume_from=src)
-            # the restore event: projection of the payload the real restore was given
-            res["restore_state"] = state
-            runs.append(res)
-            # second interruption of the resumed run (optional)
-            if p.get("fault_k2"):
+            if not p.get("fault_k2"):
+                res = smcdrv.run_smc(c3, ids=ids, role="resumed", resume_from=source(crashed))
+                res["restore_state"] = pickle.loads(blob)   # projection of the payload as it was written
+                runs.append(res)
+            else:
+                # a first resume attempt is interrupted again; the run is then resumed from the last
+                # checkpoint written so far (possibly the very same dictionary object once more)
+                src1 = source(crashed)
                 c4 = dict(c3); c4["fault_k"] = p["fault_k2"]
-                crashed2 = smcdrv.run_smc(c4, ids=ids, role="crashed", resume_from=src)
-                crashed2["restore_state"] = state
-                if crashed2["status"] == "fault" and crashed2["tracer"].payloads:
-                    blob2 = crashed2["tracer"].payloads[-1]
-                    src2 = blob2 if route not in ("dict", "live_dict") else pickle.loads(blob2)
-                    if route == "path":
-                        src2 = path
+                crashed2 = smcdrv.run_smc(c4, ids=ids, role="crashed", resume_from=src1)
+                crashed2["restore_state"] = pickle.loads(blob)
+                runs.append(crashed2)
+                if crashed2["status"] == "fault":
+                    if crashed2["tracer"].payloads:
+                        src2, blob2 = source(crashed2), crashed2["tracer"].payloads[-1]
+                    else:
+                        src2, blob2 = src1, blob
                     res2 = smcdrv.run_smc(c3, ids=ids, role="resumed", resume_from=src2)
                     res2["restore_state"] = pickle.loads(blob2)
-                    runs += [crashed2, res2]
+                    runs.append(res2)
         g = smcdrv.project_group(gid, runs)
         g["cfg"]["route"] = route
         return g
